@@ -5,6 +5,7 @@ residue, x precision 0..3; (iii) parse_hms on every 1-3 field string over a fiel
 import itertools, math, re
 from decimal import Decimal, ROUND_CEILING, ROUND_FLOOR
 from fractions import Fraction
+from vlib import concpass
 from vlib import common
 from vlib import orderpass
 from vlib.common import Report, Violation, HarnessError, Acc, pmap, merge
@@ -262,6 +263,11 @@ def run(tier):
     for n in range(1, 5):
         for t in itertools.product(JA, repeat=n):
             ph_check(acc, ''.join(t))
+    # "any text whatsoever" includes very long texts: thousands of fields, digits, blanks or signs (recursion depth, digit limits, quadratic scans)
+    for n in (5, 10, 100, 1000, 3000, 20000):
+        for t in ('0:' * n + '7', '0;' * n + '7.5', ':' * n, 'x;' * n, '1:' * n + '1', ' ' * n + '5', '5' + ' ' * n, '1' * n, '1.' + '0' * n + '1', '-' * n, '0' * n + ':0',
+                  '1:2;' * n, '%s' * n, '1' + '0' * n + ':00', '1:' + '9' * n, '.' * n, '1e' + '9' * n, '(' * n):
+            ph_check(acc, t)
     for t in (b'12', 12.5, None, [], ('1',), True):           # not text at all: a number may be passed through, anything else -> ValueError (or TypeError for non-text)
         acc.n += 1
         try:
@@ -290,10 +296,13 @@ def run(tier):
     oc += [(UP + 'parse_hms', (t,)) for t in ('1:02:03.5', '59.99', '2:03', '1:60', '', ':', '1,5', 12, 12.5, '-1:00', '100:00:00')]
     oc += [(UP + 'is_hand_timing', (t,)) for t in ('12.3', '12.34', 12.3, '1:02.3')]
     orderpass.part(rep, oc, 'formatting call-order pass')
+    concpass.part(rep, PID, tier)
     return rep.finish()
 
 
 def replay(rec):
+    if concpass.is_conc(rec):
+        return concpass.replay(rec)
     c = rec['case']
     print(rec['sig'], '-', rec['msg'])
     try:
